@@ -606,7 +606,25 @@ func (x *Run) fieldAddr(fr *Frame, st *State, a *Addr, field int, ptrTy types.Ty
 		na = &c
 		x.unsupported("field address through non-object pointer in "+fr.fn.String(), token.NoPos)
 	}
-	return Val{T: x.ptrTerm(na), S: SInt, Ty: ptrTy, Addr: na}
+	pt := x.ptrTerm(na)
+	if na.Kind == AField && na.Guard == "" && fr.fn != nil && ptrReturned(fr.fn) {
+		// the address of a field of a (non-nil, checked above) object is not nil;
+		// stated only where field addresses leave the function
+		st.assume(not(eq(pt, "0")))
+	}
+	return Val{T: pt, S: SInt, Ty: ptrTy, Addr: na}
+}
+
+// ptrReturned: the function returns a pointer (cheap filter that keeps path
+// conditions free of facts nobody can observe).
+func ptrReturned(fn *ssa.Function) bool {
+	rs := fn.Signature.Results()
+	for i := 0; i < rs.Len(); i++ {
+		if _, ok := types.Unalias(rs.At(i).Type()).Underlying().(*types.Pointer); ok {
+			return true
+		}
+	}
+	return false
 }
 
 func (x *Run) lockKey(a *Addr) string { return x.ptrTerm(a) }
